@@ -11,7 +11,15 @@ EXTENDS Codec, Json, IOUtils
 Rec == ndJsonDeserialize(IOEnv.TRACEFILE)
 VARIABLE l
 Init == l = 1
+\* "framed" events: the same decoder called on a cursor positioned inside a larger buffer (three bytes in front of the
+\* string): it must consume exactly the encoding at the front of the string, or fail, and never panic
+FramedOK(e) ==
+  LET g == Grammar(e.d)  k == DecLen(g, e.bytes) IN
+  /\ ~e.panic
+  /\ e.ok = (k >= 0)
+  /\ e.ok => (e.consumed = k /\ e.canonical)
 EventOK(e) ==
+  IF "framed" \in DOMAIN e THEN FramedOK(e) ELSE
   LET g == Grammar(e.d) IN
   /\ ~e.panic
   /\ e.ok = Dec(g, e.bytes)
